@@ -372,6 +372,13 @@ func parseEmbed(t *Tree, start Pos) (Node, error) {
 			} else {
 				return nil, newUnexpectedValueError(tok, "endembed or block")
 			}
+		} else if tok.tokenType != tokenText {
+			// A print or a comment between the blocks is not part of the embed,
+			// but it is still source: it has to be well formed.
+			t.backup()
+			if _, err := t.parse(); err != nil {
+				return nil, err
+			}
 		}
 	}
 	blockRefs := t.popBlockStack()
